@@ -1,7 +1,7 @@
 CONSTANTS
   N = 5
   MaxBars = 2
-  Total = 3
+  Total = 2
   NDiscard = 1
   Crash = FALSE
   ReporterBug = "none"
